@@ -276,6 +276,76 @@ def C14_failed_write_truncates_existing_file():
         return r.status != 20 and after != "ORIGINAL"
     finally: shutil.rmtree(d)
 
+# ---------------------------------------------------------------- client side
+def _client_proto(chunks, exc=None):
+    from nauyaca.client.protocol import GeminiClientProtocol
+    async def go():
+        loop = asyncio.get_running_loop(); fut = loop.create_future()
+        p = GeminiClientProtocol("gemini://h/", fut)
+        class T:
+            closed = False
+            def write(self, b): pass
+            def close(self): self.closed = True
+            def get_extra_info(self, *a, **k): return None
+        p.connection_made(T())
+        err = None
+        try:
+            for c in chunks: p.data_received(c)
+            p.connection_lost(exc)
+        except Exception as e:
+            err = e
+        if not fut.done(): return ("pending", err)
+        if fut.exception(): return ("exception", fut.exception())
+        return ("result", fut.result())
+    return asyncio.run(go())
+
+@witness
+def C13_unknown_charset_leaves_future_pending():
+    kind, x = _client_proto([b"20 text/plain; charset=bogus-charset\r\nhello"])
+    return kind == "pending"
+
+@witness
+def C13_oversized_header_depends_on_segmentation():
+    big = b"20 " + b"a" * (10 * 1024 * 1024 + 10) + b"\r\nbody"
+    one = _client_proto([big])
+    two = _client_proto([big[:-9], big[-9:]])
+    return one[0] != two[0]
+
+@witness
+def C03_unreadable_certificate_treated_as_unpinned():
+    """TOFU on, peer certificate cannot be read: the call must be refused; today it proceeds and pins nothing."""
+    from nauyaca.client.session import GeminiClient
+    import nauyaca.client.session as sess
+    d = tempfile.mkdtemp(dir="/var/tmp")
+    try:
+        from pathlib import Path
+        c = GeminiClient(tofu_db_path=Path(d) / "t.db", timeout=2)
+        async def go():
+            loop = asyncio.get_running_loop()
+            async def fake_cc(factory, host=None, port=None, ssl=None, server_hostname=None, **kw):
+                proto = factory()
+                class T:
+                    def write(self, b): pass
+                    def close(self): pass
+                    def is_closing(self): return False
+                    def get_extra_info(self, name, default=None):
+                        class S:   # a TLS object whose certificate cannot be parsed
+                            def getpeercert(self, binary_form=False): return b"\x30\x03\x01\x01\x07"
+                        return S() if name == "ssl_object" else default
+                proto.connection_made(T())
+                loop.call_soon(lambda: (proto.data_received(b"20 text/plain\r\nsecret"), proto.connection_lost(None)))
+                return T(), proto
+            loop.create_connection = fake_cc
+            try:
+                r = await c.get("gemini://victim.example/")
+                return r.status == 20
+            except Exception:
+                return False
+            finally:
+                del loop.create_connection
+        return asyncio.run(go())
+    finally: shutil.rmtree(d)
+
 # MAIN
 if __name__ == "__main__":
     names = sys.argv[1:] or sorted(W)
